@@ -579,3 +579,71 @@ void h_spawn(void) {
     VACUITY_END();
 }
 #endif
+
+#ifdef DELEG
+/* task_arena::execute(f): f is carried out exactly once before the call returns - inline (own arena, or a free slot) or, when the arena is saturated, by a delegated task that is
+   enqueued once under a context OF ITS OWN (isolated: a cancellation of the caller's group must not turn the delegated call into a skipped task), while the caller waits. */
+typedef struct task { int d; } task;
+enum { tgc_isolated = 0, tgc_bound = 1 };
+struct tgc { int kind; void *my_exception; bool cancelled; };
+struct delegate_base { int id; };
+struct monitor { int d; }; struct thread_context { uintptr_t key; }; struct wait_context { int refs; };
+struct arena { struct monitor my_exit_monitors; struct tgc *my_default_ctx; };
+struct thread_data { struct arena *my_arena; size_t my_arena_index; };
+struct task_arena_base { struct arena *my_arena; };
+struct task_dispatcher; typedef struct execution_data_ext { struct tgc *context; isolation_type isolation; struct task_dispatcher *task_disp; } execution_data_ext;
+struct task_dispatcher { execution_data_ext m_execute_data_ext; struct thread_data *m_thread_data; bool fifo; };
+struct delegated_task { struct delegate_base *m_delegate; struct monitor *m_monitor; struct wait_context *m_wait_ctx; bool m_completed; };
+#define out_of_arena (~(size_t)0)
+static struct arena A, OTHER_ARENA; static struct thread_data TD; static struct tgc DEFCTX, CALLERCTX; static struct delegate_base D;
+int g_calls, g_enq, g_enq_kind, g_entered, g_guard, g_release, g_notify, g_throw; bool g_done, g_prepared, g_checked, g_in_scope_at_call, g_guard_at_call; struct delegated_task *g_enq_task; size_t g_slot;
+static void interfere(void) { if (g_enq == 1 && nondet_bool()) g_done = true; }          /* the delegated task runs (or is cancelled) on some other thread and finalizes: monotone */
+static struct thread_data *STUB_get_thread_data(void) { return &TD; }
+static size_t STUB_occupy_free_slot(struct arena *a, struct thread_data *td) { interfere(); return nondet_bool() ? out_of_arena : (g_slot = nondet_size_t() % 1024); }
+#define INIT_thread_context(w, k) ((w)->key = (k))
+#define INIT_wait_context(w, n) ((w)->refs = (n))
+#define INIT_tgc(c, k) do { (c)->kind = (k); (c)->my_exception = NULL; (c)->cancelled = false; } while (0)
+#define INIT_delegated_task(t, dd, m, w) do { (t)->m_delegate = (dd); (t)->m_monitor = (m); (t)->m_wait_ctx = (w); (t)->m_completed = false; } while (0)
+static void STUB_copy_fp_settings(struct tgc *c, struct tgc *src) {}
+static void STUB_enqueue_task(struct arena *a, struct delegated_task *t, struct tgc *c, struct thread_data *td) { g_enq++; g_enq_kind = c->kind; g_enq_task = t; __CPROVER_assert(t->m_wait_ctx->refs == 1 && !t->m_completed, "C01.delegate: the delegated task holds the one reference the caller waits for"); }
+#define MONITOR_prepare_wait(m, w) do { __CPROVER_assert(!g_prepared, "C01.delegate: no nested prepare_wait"); g_prepared = true; g_checked = false; } while (0)
+#define MONITOR_cancel_wait(m, w) do { __CPROVER_assert(g_prepared, "C01.delegate: cancel_wait pairs with prepare_wait"); g_prepared = false; } while (0)
+#define MONITOR_commit_wait(m, w) do { __CPROVER_assert(g_prepared && g_checked, "C01.delegate: the caller goes to sleep only after re-checking, behind prepare_wait, that the delegated call is still outstanding"); g_prepared = false; interfere(); } while (0)
+#define MONITOR_notify_one(m) ((void)0)
+static bool wait_ctx_continue(struct wait_context *w) { interfere(); if (!g_done && g_prepared) g_checked = true; return !g_done; }
+#define WAIT_CTX_CONTINUE(w) wait_ctx_continue(w)
+#define NESTED_ARENA_ENTER(td, a, idx) do { g_entered++; __CPROVER_assert((idx) != out_of_arena, "C01.delegate: the arena is entered through a slot that was really obtained"); } while (0)
+static void STUB_r1_wait(struct wait_context *w, struct tgc *c) { interfere(); __CPROVER_assume(g_done); }        /* returns when the wait context is released */
+#define VERIF_THROW() (g_throw++)
+#define CONTEXT_GUARD_SET(c) (g_guard++)
+#define CALL_DELEGATE(dd) do { g_calls++; g_in_scope_at_call = (g_entered == 1); g_guard_at_call = (g_guard == 1); __CPROVER_assert((dd) == &D, "C01.delegate: the function called is the one that was passed in"); } while (0)
+#define WAIT_CTX_RELEASE(w) do { __CPROVER_assert(g_notify == 0, "C01.delegate: the wait context is released before the waiter is notified"); g_release++; (w)->refs--; } while (0)
+#define MONITOR_NOTIFY_KEY(m, k) do { __CPROVER_assert(g_release == 1, "C01.delegate: the waiter is notified after the release"); __CPROVER_assert((k) == (uintptr_t)&D, "C01.delegate: exactly the caller waiting for THIS delegate is woken"); g_notify++; } while (0)
+#define ATOMIC_STORE(x, v) do { __CPROVER_assert(g_release == 1 && g_notify == 1, "C01.delegate: m_completed is raised last (the task object may be destroyed right after)"); (x) = (v); } while (0)
+static bool TD_ALLOW_FIFO(struct task_dispatcher *d, bool v) { bool o = d->fifo; d->fifo = v; return o; }
+#define LOOP_exec_1 __CPROVER_assigns(index2, g_done, g_prepared, g_checked, g_entered, g_slot) __CPROVER_loop_invariant(g_enq == 1 && g_enq_kind == tgc_isolated && index2 == out_of_arena && !g_prepared && g_entered == 0 && g_calls == 0)
+#include "delegate.inc"
+static void world(void) { A.my_default_ctx = &DEFCTX; g_calls = g_enq = g_entered = g_guard = g_release = g_notify = g_throw = 0; g_done = g_prepared = g_checked = false; g_enq_kind = -1; }
+void h_arena_execute(void) {
+    world(); struct task_arena_base ta; ta.my_arena = &A; TD.my_arena = nondet_bool() ? &A : &OTHER_ARENA; TD.my_arena_index = nondet_size_t() % 1024;
+    task_arena_execute(&ta, &D);
+    if (g_enq == 0) {
+        OBLIGATION(g_calls == 1 && g_in_scope_at_call && g_guard_at_call, "C01.once: task_arena::execute(f) carries f out exactly once, inside the arena (slot occupied or own arena) and under the arena's default context");
+    } else {
+        OBLIGATION(g_enq == 1 && g_calls == 0, "C01.once: when the arena is saturated f is delegated exactly once and not also run inline");
+        OBLIGATION(g_enq_kind == tgc_isolated, "C01.once: the delegated call runs under an isolated context of its own - a cancellation of the caller's task group must not turn it into a skipped task while execute() returns normally");
+        OBLIGATION(g_done && !g_prepared, "C01.wait: execute() returns only after the delegated task has finalized, and leaves no wait registration behind");
+    }
+    VACUITY_END();
+}
+void h_delegated_task(void) {
+    world(); struct wait_context wo; wo.refs = 1; struct delegated_task dt; INIT_delegated_task(&dt, &D, &A.my_exit_monitors, &wo);
+    struct task_dispatcher disp; TD.my_arena = &A; disp.m_thread_data = &TD; disp.m_execute_data_ext.context = &CALLERCTX; disp.m_execute_data_ext.isolation = no_isolation; disp.m_execute_data_ext.task_disp = &disp; disp.fifo = nondet_bool(); bool fifo0 = disp.fifo;
+    bool cancelled = nondet_bool();
+    if (cancelled) dt_cancel(&dt); else dt_execute(&dt, &disp.m_execute_data_ext);
+    OBLIGATION(g_calls == (cancelled ? 0 : 1), "C01.once: the delegated task calls the function exactly once when executed, and not at all when its (own, isolated) group was cancelled");
+    OBLIGATION(g_release == 1 && g_notify == 1 && dt.m_completed && wo.refs == 0, "C01.wait: either way the task finalizes exactly once: the waiting caller's reference is released, that caller is notified, completion is published last");
+    OBLIGATION(disp.m_execute_data_ext.context == &CALLERCTX && disp.fifo == fifo0, "C01.delegate: the executing thread's own context and FIFO permission are restored");
+    VACUITY_END();
+}
+#endif
